@@ -329,6 +329,8 @@ pub fn suite_clirt(dir: &str, seed: u64, thorough: bool, st: &mut Stats) {
             let over = s.read("over.cba").unwrap_or_default();
             if code3 != 0 || over != archive {
                 st.violation("C11", "compress --force-create over an existing larger file does not leave exactly the archive", &replay);
+                // the same input and options give other archive bytes than onto a fresh path
+                st.violation("C12", "compress --force-create over an existing larger file gives other bytes than the same compress onto a fresh path", &replay);
             }
             let _ = std::fs::remove_file(s.p("over.cba"));
         }
